@@ -97,11 +97,19 @@ fn enclosure_oracle<F: Function<Trace = VmTrace>>(f: &F, dag: &Dag, roots: &[Nod
                 if atan00 { continue; }
                 *local_checks += 1;
                 let hash_op = matches!(op_name(dag, *n).as_str(), "Mix" | "Rand");
+                // one of the four endpoint products of a multiplication is NaN (0 * inf): the x86 min / max chain
+                // of the JIT returns its second operand on NaN and can lose a bound
+                let nan_product = op_name(dag, *n) == "Mul" && {
+                    let ends = |c: &Node| -> Option<[f32; 2]> { match dag.ctx.get_op(*c) { Some(Op::Const(k)) => Some([k.0 as f32, k.0 as f32]), _ => idx.get(&c.verif_index()).map(|j| [ivs[*j].lower(), ivs[*j].upper()]) } };
+                    match (kids.get(0).and_then(ends), kids.get(1).or(kids.get(0)).and_then(ends)) { (Some(a), Some(b)) => a.iter().any(|x| b.iter().any(|y| (x * y).is_nan())), _ => false } };
                 let kind = if half_nan { "half-nan-interval" } else if nan_hidden { "nan-operand-hidden" }
+                    else if nan_product && operands_ok && backend == "jit" { "nan-product-drops-bound" }
                     else if hash_op && zero_sign { "hash-of-signed-zero" }
                     else if operands_ok { "local-enclosure" } else { continue };
-                bad.push(format!("kind={kind} backend={backend} op={} node={} value={} interval=[{}, {}] point={:?}",
-                    op_name(dag, *n), n.verif_index(), vals[k], ivs[k].lower(), ivs[k].upper(), s));
+                let ops: Vec<String> = kids.iter().map(|c| match dag.ctx.get_op(*c) { Some(Op::Const(c)) => format!("const {}", c.0),
+                    _ => idx.get(&c.verif_index()).map(|j| format!("{} in [{}, {}]", vals[*j], ivs[*j].lower(), ivs[*j].upper())).unwrap_or("?".into()) }).collect();
+                bad.push(format!("kind={kind} backend={backend} op={} node={} value={} interval=[{}, {}] operands={:?} point={:?}",
+                    op_name(dag, *n), n.verif_index(), vals[k], ivs[k].lower(), ivs[k].upper(), ops, s));
             }
         }
     }
